@@ -47,6 +47,8 @@ Record world_ok (W : world) : Prop := {
   ok_looseeq_prim : forall a b n, is_prim a = true -> is_prim b = true -> exists r, w_bin W BLooseEq a b n = ([], Val (VBool r));
   (* strings: IsLooselyEqual / IsLessThan are the code-unit comparisons *)
   ok_looseeq_str : forall a b n, w_bin W BLooseEq (VStr a) (VStr b) n = ([], Val (VBool (zlist_eqb a b)));
+  (* numbers: IsLooselyEqual on two Numbers is Number::equal *)
+  ok_looseeq_num : forall a b n, w_bin W BLooseEq (VNum a) (VNum b) n = ([], Val (VBool (num_eq a b)));
   ok_lt_str : forall a b n, w_bin W BLt (VStr a) (VStr b) n = ([], Val (VBool (spec_string_lt a b)));
   ok_gt_str : forall a b n, w_bin W BGt (VStr a) (VStr b) n = ([], Val (VBool (spec_string_lt b a)));
   ok_le_str : forall a b n, w_bin W BLe (VStr a) (VStr b) n = ([], Val (VBool (negb (spec_string_lt b a))));
